@@ -445,3 +445,82 @@ def _decrement_iteration(prog, b, site, _depth=0):
             bad = [w for ok, w in res if not ok]
             return (True, "") if not bad else (False, bad[0] + " (at a call of %s)" % b.path.rsplit("::", 1)[-1])
     return False, "outside any iteration over iter_attacks_from"
+
+
+def rule_component_traversal(ctx):
+    """C11 (and the per-component solving of C01-C03): the search that collects one connected component"""
+    prog = ctx.prog
+    from ..prov import prov, show, subterms, roots
+    from .grounded import inherited_conditions, _cond_trees, _is_call
+    from .equiv import _stores_through
+
+    r = ctx.rule(
+        "component-traversal",
+        "the search collecting a connected component: the neighbour taken from an attack is its other end (the target of an attack from the "
+        "visited argument, the source of an attack to it); a neighbour met for the first time (`not marked`) is, in that same step, marked, "
+        "added to the component and put on the work list the search pops from - so the component is closed under attacks in both directions "
+        "and holds every argument once",
+    )
+    fcc = None
+    for b in prog.lib_bodies():
+        if b.kind != "closure" and b.path.startswith("utils::connected_components_computer") and b.ret_ty.startswith("alloc::vec::Vec<&") and any(callee_matches(callee_of(s), r"AAFramework::iter_attacks_(from|to)$") for y in prog.with_closures(b) for s in y.calls()):
+            fcc = b
+    if fcc is None:
+        r.ok("traversal", "NOT decided: no function of the component computer returning the collected arguments while following attacks", None)
+        return
+    bodies = prog.with_closures(fcc)
+    comp_roots = roots(prog, fcc, {"l": 0, "p": []})
+    work_roots = set()
+    for y in bodies:
+        for s in y.calls():
+            if callee_decl(callee_of(s)) in ("alloc::vec::Vec::pop", "alloc::collections::vec_deque::VecDeque::pop_front", "alloc::collections::vec_deque::VecDeque::pop_back", "alloc::vec::Vec::swap_remove", "alloc::vec::Vec::remove"):
+                work_roots |= roots(prog, y, s.node["args"][0])
+    pushes, marks = [], []
+    for y in bodies:
+        for s in y.calls():
+            d = callee_decl(callee_of(s))
+            if d in ("alloc::vec::Vec::push", "alloc::collections::vec_deque::VecDeque::push_back", "alloc::collections::vec_deque::VecDeque::push_front"):
+                pushes.append((y, s, roots(prog, y, s.node["args"][0]), frozenset(prov(prog, y, s.node["args"][1])), _cond_trees(prog, inherited_conditions(prog, y, s.bb))))
+            if d == "core::ops::index::IndexMut::index_mut" and "bool" in str(callee_of(s).get("substs")) and any((op_const(o) or {}).get("bool") is True for o in _stores_through(y, s)):
+                marks.append((y, s, frozenset(prov(prog, y, s.node["args"][1])), _cond_trees(prog, inherited_conditions(prog, y, s.bb))))
+    n = 0
+    for y, s, rts, vals, conds in pushes:
+        if not (rts & comp_roots):
+            continue
+        ends = set()
+        dirs = set()
+        elems = set()
+        unknown = False
+        for v in vals:
+            vv = v
+            if _is_call(vv, r"aa_framework::Attack::(attacker|attacked)$", 1) and vv[2][0][0] == "elem":
+                ends.add(vv[1].rsplit("::", 1)[-1])
+                elems.add(vv[2][0])
+                for t in subterms(vv[2][0][1]):
+                    if _is_call(t, r"AAFramework::iter_attacks_(from|to)(_id)?$"):
+                        dirs.add("from" if "_from" in t[1] else "to")
+            else:
+                unknown = True
+        anchor = "%s|neighbour" % fcc.id
+        n += 1
+        if unknown or not dirs:
+            r.ok(anchor, "NOT decided: the value added to the component is not an end of an iterated attack (%s)" % "; ".join(show(v)[:60] for v in list(vals)[:2]), s.loc())
+            continue
+        need = ({"attacked"} if "from" in dirs else set()) | ({"attacker"} if "to" in dirs else set())
+        r.check(need <= ends, anchor, "other-end:%s/%s" % (sorted(dirs), sorted(ends)), "the neighbour is the other end of the attack", "the search follows attacks %s the visited argument but only ever takes the %s of an attack as the neighbour: in one direction it finds the visited argument itself and never its neighbour" % (" and ".join("from" if d == "from" else "to" for d in sorted(dirs)), "/".join(sorted(ends))), s.loc())
+        # first-visit guard
+        guard = [(c, t) for c, t in conds if _is_call(c, r"Index::index$", 2) and any(e in subterms(c[2][1]) for e in elems)]
+        if not guard:
+            r.ok(anchor + "|first-visit", "NOT decided: no `marked` test on the neighbour governs the addition", s.loc())
+            continue
+        r.check(all(t is False for c, t in guard), anchor + "|first-visit", "guard-polarity", "added when not marked yet", "the neighbour is added to the component when it is *already* marked", s.loc())
+        marked = any(all(g in mc for g in guard) and any(e in subterms(i) for i in mi for e in elems) for y2, s2, mi, mc in marks)
+        r.check(marked, anchor + "|marked", "neighbour-not-marked", "the neighbour is marked in the same step", "a neighbour added to the component is not marked as visited in that step: it is added again at every later attack that reaches it (the component holds it several times)", s.loc())
+        if work_roots:
+            queued = any((rts2 & work_roots) and not (rts2 & comp_roots) and vals2 == vals and all(g in c2 for g in guard) for y2, s2, rts2, vals2, c2 in pushes)
+            same_vec = bool(rts & work_roots)
+            r.check(queued or same_vec, anchor + "|queued", "neighbour-not-queued", "the neighbour is put on the work list in the same step", "a neighbour added to the component is not put on the work list: its own attacks are never followed, the component is not closed", s.loc())
+        else:
+            r.ok(anchor + "|queued", "NOT decided: no work list (a vector the search pops from) recognised", s.loc())
+    if n == 0:
+        r.ok("%s|neighbour" % fcc.id, "NOT decided: no addition to the returned vector found", fcc.loc())
